@@ -31,6 +31,21 @@ OPS = [
     (r"\bzero\(\)", "one()"), (r"\bone\(\)", "zero()"), (r"\b0\.\.", "1.."), (r"\[0\]", "[1]"),
     (r"\.0\b", ".1"), (r"\.1\b", ".0"),
 ]
+# second operator set: "the wrong variable of the right type" - the most common kind of real slip in this code base
+OPS2 = [
+    (r"customer_balance", "merchant_balance"), (r"merchant_balance", "customer_balance"),
+    (r"\bold_", "new_"), (r"\bnew_", "old_"), (r"\bclose_state", "state"), (r"(?<!close_)\bstate(?=[_\.\)])", "close_state"),
+    (r"\bsigma1\b", "sigma2"), (r"\bsigma2\b", "sigma1"), (r"\by1s\b", "y2s"), (r"\by2s\b", "y1s"),
+    (r"\bg1\b", "g2"), (r"\bg2\b", "g1"), (r"\bx1\b", "x2"), (r"\bx2\b", "x1"),
+    (r"\[1\]", "[2]"), (r"\[2\]", "[3]"), (r"\[3\]", "[4]"), (r"\[4\]", "[3]"),
+    (r"commitment_scalar", "response_scalar"), (r"response_scalar", "commitment_scalar"),
+    (r"\bcustomer_", "merchant_"), (r"\bmerchant_", "customer_"),
+    (r"\.\.N\b", "..N - 1"), (r"\btake\(N\)", "take(N - 1)"), (r"\bmin\(", "max("), (r"\bmax\(", "min("),
+    (r"\bfirst\b", "last"), (r"\bnonce\b", "revocation_lock"), (r"\block\b", "secret"), (r"\bsecret\b", "lock"),
+    (r"\bmsg\b", "commitment_scalars"), (r"\bblinding_factor\b", "blinding_factor_commitment_scalar"),
+    (r"\bas_scalar\(\)", "as_scalar().square()"), (r"\bto_scalar\(\)", "to_scalar().double()"),
+    (r"\bneg\(\)", "neg().neg()"), (r"\brandomize\(", "clone_NOOP("), (r"Scalar::random\(", "Scalar::from_u64_NOOP("),
+]
 LINE_DELETE = re.compile(r"^\s*\.(with|consume|with_bytes|update)\(.*\)\s*$|^\s*(self\.)?[a-z_\.]+\.(consume|update|push|extend)\(.*\);\s*$|^\s*return (None|Err\(.*\)|Failed|false);\s*$")
 
 
@@ -62,13 +77,13 @@ def gen(a):
             lines, live = lib_lines(path)
             for i, l in live:
                 code = l.split("//")[0]
-                for pat, rep in OPS:
+                for pat, rep in (OPS2 if a.ops == 2 else OPS):
                     for m in re.finditer(pat, code):
                         if rep == ".zip_SKIP(":
                             continue
                         new = code[:m.start()] + rep + code[m.end():] + l[len(code):]
                         cands.append((rel, i, new, "%s -> %s" % (pat, rep)))
-                if LINE_DELETE.match(code):
+                if a.ops != 2 and LINE_DELETE.match(code):
                     cands.append((rel, i, None, "delete line"))
     rnd = random.Random(a.seed)
     rnd.shuffle(cands)
@@ -184,6 +199,7 @@ ap.add_argument("out")
 ap.add_argument("--sample", type=int, default=0)
 ap.add_argument("--seed", type=int, default=1)
 ap.add_argument("--jobs", type=int, default=4)
+ap.add_argument("--ops", type=int, default=1, help="operator set: 1 = one-token operators and line deletions, 2 = wrong-variable swaps")
 a = ap.parse_args()
 a.out = os.path.abspath(a.out)
 {"gen": gen, "run": run, "probe": probe}[a.cmd](a)
